@@ -15,7 +15,7 @@ Proof.
 Qed.
 
 Lemma frame_ok_polls t : frame_ok true t = true -> tag_polls t = true.
-Proof. destruct t as [p| |p| |h r|w p]; simpl; try reflexivity; try (destruct p; simpl; congruence). Qed.
+Proof. destruct t as [p| |p| |h r|w p|pe]; simpl; try reflexivity; try (destruct p; simpl; congruence); try (destruct pe; simpl; congruence). Qed.
 
 Lemma frames_ok_polls fs : frames_ok true fs = true -> polls_all fs = true.
 Proof.
@@ -125,9 +125,12 @@ Proof.
   inversion H; subst; clear H; unfold Inv, with_stk in *; simpl in *.
   - eapply apply_effect_inv; eauto.
   - auto.
+  - auto.
   - rewrite H0 in Hs. simpl in Hs. apply andb_prop in Hs as [_ Hs]. auto.
-  - rewrite Ha in *. rewrite (cur_flag_true _ Hs) in H3.
-    rewrite polls_all_app, (frames_ok_polls _ H3), Hs. auto.
+  - rewrite H0 in Hs. simpl in Hs. apply andb_prop in Hs as [_ Hs]. auto.
+  - rewrite Ha in *.
+    match goal with Hf : frames_ok _ _ = true |- _ => rewrite (cur_flag_true _ Hs) in Hf;
+      rewrite polls_all_app, (frames_ok_polls _ Hf), Hs end. auto.
   - rewrite H0 in Hs. simpl in Hs. auto.
   - auto.
   - rewrite H0 in Hs. simpl in Hs. auto.
@@ -185,6 +188,8 @@ Proof.
   - (* instr *) simpl in Hs. apply andb_prop in Hs as [Hpt _]. subst p. discriminate.
   - lia.
   - lia.
+  - simpl in Hs. apply andb_prop in Hs as [Hpt _]. subst p. discriminate.
+  - lia.
   - rewrite weight_app. pose proof (weight_le_len fs). simpl. lia.
   - lia.
   - lia.
@@ -210,6 +215,8 @@ Proof.
   inversion H; subst; clear H; unfold steps_measure, with_stk; simpl in *; subst; simpl.
   - simpl in Hs. apply andb_prop in Hs as [Hpt _]. subst p. discriminate.
   - lia.
+  - lia.
+  - simpl in Hs. apply andb_prop in Hs as [Hpt _]. subst p. discriminate.
   - destruct (fresh_xp t); simpl; lia.
   - rewrite app_length, filter_app_len. simpl.
     pose proof (filter_len_le fresh_xp fs).
@@ -218,8 +225,8 @@ Proof.
   - simpl. lia.
   - simpl. lia.
   - simpl. lia.
-  - destruct t as [p| |p| |h r|w p]; try destruct r; try destruct w; simpl in *; try discriminate; lia.
-  - destruct t as [p| |p| |h r|w p]; try destruct r; try destruct w; simpl in *; try discriminate; lia.
+  - destruct t as [p| |p| |h r|w p|pe]; try destruct r; try destruct w; simpl in *; try discriminate; lia.
+  - destruct t as [p| |p| |h r|w p|pe]; try destruct r; try destruct w; simpl in *; try discriminate; lia.
   - destruct h; simpl; lia.
   - discriminate.
 Qed.
@@ -236,7 +243,7 @@ Proof.
   intros [Hc HI] Hne. pose proof HI as (Ha & Hs & Hp).
   destruct (stk σ) as [|t s] eqn:Es; [congruence|].
   destruct (md σ) as [|e] eqn:Em.
-  - destruct t as [p| |p| |h r|w p].
+  - destruct t as [p| |p| |h r|w p|pe].
     + simpl in Hs. apply andb_prop in Hs as [Hpt _]. subst p.
       eexists _, _. eapply S_poll; eauto.
     + eexists _, _. eapply S_goret; eauto.
@@ -244,10 +251,12 @@ Proof.
     + eexists _, _. eapply S_ret; eauto.
     + eexists _, _. eapply S_ret; eauto 6.
     + eexists _, _. eapply S_ret; eauto 6.
+    + simpl in Hs. apply andb_prop in Hs as [Hpt _]. subst pe.
+      eexists _, _. eapply S_exit_poll; eauto.
   - destruct (role_of t) eqn:Er.
     + eexists _, _. eapply S_unwind; eauto.
     + eexists _, _. eapply S_catch; eauto.
-    + destruct t as [p| |p| |h' r|w p]; simpl in Er; try discriminate.
+    + destruct t as [p| |p| |h' r|w p|pe]; simpl in Er; try discriminate.
       * destruct r; try discriminate. eexists _, _. eapply S_handler; eauto.
       * destruct w; discriminate.
 Qed.
@@ -265,8 +274,7 @@ Lemma armed_raise_cons t s :
   armed_raise (t :: s) = match role_of t with
                          | Passes => armed_raise s
                          | Catches => armed_run s
-                         | Handles HLua => armed_run s
-                         | Handles HGo => false
+                         | Handles _ => armed_run s
                          end.
 Proof. reflexivity. Qed.
 
@@ -284,6 +292,9 @@ Proof.
   - simpl in Hs. apply andb_prop in Hs as [Hpt _]. subst p. discriminate.
   - destruct HA as [[_ HA]|[HA _]]; [|discriminate]. simpl in HA.
     split; [right; auto|]. intros Hnb. split; [exact Hnb|reflexivity].
+  - destruct HA as [[_ HA]|[HA _]]; [|discriminate]. simpl in HA.
+    split; [right; auto|]. intros Hnb. split; [exact Hnb|reflexivity].
+  - simpl in Hs. apply andb_prop in Hs as [Hpt _]. subst p. discriminate.
   - destruct HA as [[_ HA]|[HA _]]; [|discriminate].
     match goal with Hd : _ \/ _ |- _ => destruct Hd as [->|[(h & r & ->)|(w & p & ->)]] end;
       simpl in HA; (split; [left; split; [reflexivity|exact HA]|]);
@@ -306,8 +317,8 @@ Proof.
     match goal with E : role_of _ = _ |- _ => rewrite E in HB; rewrite E end.
     split; [left; auto|]. intros Hnb. split; [exact (no_block_tail _ _ Hnb)|reflexivity].
   - destruct HA as [[HA _]|[HA HB]]; [discriminate|]. inversion HA; subst.
-    destruct h; [|discriminate]. simpl. split; [left; auto|].
-    intros Hnb. split; [|reflexivity]. unfold no_block in *. simpl in *. exact Hnb.
+    destruct h; simpl; (split; [left; auto|]);
+      intros Hnb; (split; [|reflexivity]); unfold no_block in *; simpl in *; exact Hnb.
   - discriminate.
 Qed.
 
@@ -338,7 +349,7 @@ Proof. unfold final, cost. intros ->. destruct (md σ); reflexivity. Qed.
 Lemma cost_le_weight s : cost_run s <= weight s + 1 /\ cost_raise s <= weight s.
 Proof.
   induction s as [|t s [IH1 IH2]]; simpl; [lia|].
-  unfold weight1. destruct t as [p| |p| |h r|w p]; simpl; try lia.
+  unfold weight1. destruct t as [p| |p| |h r|w p|pe]; simpl; try lia.
   - destruct r; simpl; [lia|]. destruct h; lia.
   - destruct w; simpl; lia.
 Qed.
@@ -349,15 +360,15 @@ Lemma exec_step_sound σ go l σ' go' : exec_step σ go = inl (l, σ', go') -> s
 Proof.
   unfold exec_step. destruct (stk σ) as [|t s] eqn:Es; [destruct (md σ); discriminate|].
   destruct (md σ) as [|e] eqn:Em.
-  - destruct t as [p| |p| |h r|w p].
+  - destruct t as [p| |p| |h r|w p|pe].
     + destruct (p && cancelled σ) eqn:E; [|discriminate]. intros H; inversion H; subst; clear H.
       apply andb_prop in E as [-> Hc]. rewrite <- Es. eapply S_poll; eauto.
     + destruct go as [|[fs| |] go0].
       * intros H; inversion H; subst. eapply S_goret; eauto.
       * destruct (negb (length fs =? 0) && frames_ok (cur_flag (attached σ) (TGoPlain :: s)) fs
-                  && (length fs <=? gofuel σ)) eqn:E; [|discriminate].
+                  && entry_ok fs && (length fs <=? gofuel σ)) eqn:E; [|discriminate].
         intros H; inversion H; subst; clear H.
-        apply andb_prop in E as [E E3]. apply andb_prop in E as [E1 E2].
+        apply andb_prop in E as [E E3]. apply andb_prop in E as [E E4]. apply andb_prop in E as [E1 E2].
         rewrite <- Es. eapply S_gocall; eauto.
         -- intros ->. simpl in E1. discriminate.
         -- rewrite Es. exact E2.
@@ -370,7 +381,10 @@ Proof.
     + intros H; inversion H; subst. eapply S_ret; eauto.
     + intros H; inversion H; subst. eapply S_ret; eauto 6.
     + intros H; inversion H; subst. eapply S_ret; eauto 6.
-  - destruct t as [p| |p| |h r|w p]; try destruct r; try destruct w; simpl;
+    + destruct (pe && cancelled σ) eqn:E; intros H; inversion H; subst; clear H.
+      * apply andb_prop in E as [-> Hc]. rewrite <- Es. eapply S_exit_poll; eauto.
+      * eapply S_exit_ret; eauto.
+  - destruct t as [p| |p| |h r|w p|pe]; try destruct r; try destruct w; simpl;
       intros H; inversion H; subst; clear H;
       first [ eapply S_handler; solve [eauto]
             | eapply S_unwind; solve [eauto]
@@ -382,13 +396,14 @@ Proof.
   unfold exec_step, final. destruct (stk σ) as [|t s] eqn:Es.
   - destruct (md σ); intros H; inversion H; auto.
   - destruct (md σ) as [|e].
-    + destruct t as [p| |p| |h r|w p]; try discriminate.
+    + destruct t as [p| |p| |h r|w p|pe]; try discriminate.
       * destruct (p && cancelled σ); discriminate.
       * destruct go as [|[fs| |] go0]; try discriminate.
         destruct (negb (length fs =? 0) && frames_ok (cur_flag (attached σ) (TGoPlain :: s)) fs
-                  && (length fs <=? gofuel σ)); discriminate.
+                  && entry_ok fs && (length fs <=? gofuel σ)); discriminate.
       * destruct (p && cancelled σ); discriminate.
-    + destruct t as [p| |p| |h r|w p]; try destruct r; try destruct w; simpl; discriminate.
+      * destruct (pe && cancelled σ); discriminate.
+    + destruct t as [p| |p| |h r|w p|pe]; try destruct r; try destruct w; simpl; discriminate.
 Qed.
 
 Lemma exec_sound fuel : forall σ go acc tr σ' e,
@@ -439,22 +454,23 @@ Proof.
            unfold exec_step in E. unfold top_flag.
            destruct (stk σ) as [|t s] eqn:Es; [destruct (md σ); discriminate|].
            destruct (md σ) as [|er] eqn:Em.
-           ++ destruct t as [p| |p| |h r|w p]; try discriminate.
+           ++ destruct t as [p| |p| |h r|w p|pe]; try discriminate.
               ** destruct (p && cancelled σ) eqn:Epc; [discriminate|]. eapply S_instr; eauto.
               ** destruct (p && cancelled σ); discriminate.
-           ++ destruct t as [p| |p| |h r|w p]; try destruct r; try destruct w; simpl in E; discriminate.
+              ** destruct (pe && cancelled σ); discriminate.
+           ++ destruct t as [p| |p| |h r|w p|pe]; try destruct r; try destruct w; simpl in E; discriminate.
 Qed.
 
 (* ---------------------------------------------------------------- transparency *)
 
 Lemma erase_role t : role_of (erase_tag t) = role_of t.
-Proof. destruct t as [p| |p| |h r|w p]; try destruct w; reflexivity. Qed.
+Proof. destruct t as [p| |p| |h r|w p|pe]; try destruct w; reflexivity. Qed.
 
 Lemma cur_flag_erase s : cur_flag false (map erase_tag s) = false.
 Proof. induction s as [|t s IH]; simpl; [reflexivity|]. destruct t; simpl; auto. Qed.
 
 Lemma frame_ok_erase f t : frame_ok f t = true -> frame_ok false (erase_tag t) = true.
-Proof. destruct t as [p| |p| |h r|w p]; simpl; auto. Qed.
+Proof. destruct t as [p| |p| |h r|w p|pe]; simpl; auto. Qed.
 
 Lemma frames_ok_erase f fs : frames_ok f fs = true -> frames_ok false (map erase_tag fs) = true.
 Proof.
@@ -473,7 +489,7 @@ Lemma split_co_erase s :
   end.
 Proof.
   induction s as [|t s IH]; simpl; [reflexivity|].
-  destruct t as [p| |p| |h r|w p]; simpl; try reflexivity;
+  destruct t as [p| |p| |h r|w p|pe]; simpl; try reflexivity;
     rewrite IH; destruct (split_co s) as [[[a b] r']|]; reflexivity.
 Qed.
 
@@ -509,6 +525,15 @@ Proof. reflexivity. Qed.
 Lemma handler_frame_erase h f : erase_tag (handler_frame h f) = handler_frame h false.
 Proof. destruct h; reflexivity. Qed.
 
+Lemma last_map {A B} (f : A -> B) l d : last (map f l) (f d) = f (last l d).
+Proof. induction l as [|x l IH]; simpl; [reflexivity|]. destruct l; simpl in *; auto. Qed.
+
+Lemma entry_ok_erase fs : entry_ok (map erase_tag fs) = entry_ok fs.
+Proof.
+  unfold entry_ok. change TGoPlain with (erase_tag TGoPlain) at 1. rewrite last_map.
+  destruct (last fs TGoPlain) as [p| |p| |h r|w p|pe]; reflexivity.
+Qed.
+
 (* Every step taken with a context that is not done is a step of the context-free machine. *)
 Lemma transparent_fwd σ l σ' :
   cancelled σ = false -> l <> LCancel -> step σ l σ' ->
@@ -521,6 +546,8 @@ Proof.
     + reflexivity.
     + apply apply_effect_erase. assumption.
   - congruence.
+  - congruence.
+  - eapply S_exit_ret with (p := false); simpl; eauto. rewrite H0. reflexivity.
   - eapply S_ret with (t := erase_tag t); simpl.
     + rewrite H0. reflexivity.
     + assumption.
@@ -536,6 +563,7 @@ Proof.
     + assumption.
     + destruct fs; simpl; congruence.
     + rewrite cur_flag_erase. eapply frames_ok_erase; eauto.
+    + rewrite entry_ok_erase. assumption.
     + rewrite map_length. assumption.
   - eapply S_goret; simpl; eauto. rewrite H0. reflexivity.
   - simpl. eapply S_goraise with (s := map erase_tag s); simpl; eauto. rewrite H0. reflexivity.
@@ -556,7 +584,7 @@ Qed.
 
 (* Conversely: every step of the context-free machine is the image of a step with the context. *)
 Definition reflag (f : bool) (t : tag) : tag :=
-  match t with TLua _ => TLua f | TGoBlock _ => TGoBlock f | t => t end.
+  match t with TLua _ => TLua f | TGoBlock _ => TGoBlock f | TEntry _ => TEntry f | t => t end.
 
 Definition lift_effect (f : bool) (e : effect) : effect :=
   match e with
@@ -571,8 +599,9 @@ Lemma reflag_ok f fs :
 Proof.
   induction fs as [|t fs IH]; simpl; intros H; [auto|].
   apply andb_prop in H as [H1 H2]. destruct (IH H2) as [I1 I2]. rewrite I1, I2.
-  destruct t as [p| |p| |h r|w p]; simpl in *; try discriminate;
-    try (destruct p; simpl in H1; try discriminate); try destruct r; try discriminate;
+  destruct t as [p| |p| |h r|w p|pe]; simpl in *; try discriminate;
+    try (destruct p; simpl in H1; try discriminate); try (destruct pe; simpl in H1; try discriminate);
+    try destruct r; try discriminate;
     rewrite ?eqb_reflx; auto.
 Qed.
 
@@ -613,6 +642,12 @@ Proof.
     destruct b; try discriminate. eauto.
 Qed.
 
+Lemma entry_ok_reflag f fs : entry_ok (map (reflag f) fs) = entry_ok fs.
+Proof.
+  unfold entry_ok. change TGoPlain with (reflag f TGoPlain) at 1. rewrite last_map.
+  destruct (last fs TGoPlain) as [p| |p| |h r|w p|pe]; reflexivity.
+Qed.
+
 Lemma transparent_bwd σ l0 τ :
   cancelled σ = false -> step (erase σ) l0 τ ->
   exists l σ', step σ l σ' /\ l <> LCancel /\ erase_label l = l0 /\ erase σ' = τ.
@@ -626,22 +661,27 @@ Proof.
     destruct (stk σ) as [|t0 s0] eqn:Es; try discriminate;
     match goal with E : map erase_tag (_ :: _) = _ |- _ => cbn in E; inversion E; subst; clear E end.
   - (* instr *)
-    destruct t0 as [q| |q| |h r|w q]; try discriminate.
+    destruct t0 as [q| |q| |h r|w q|qe]; try discriminate.
     match goal with E : erase_tag _ = _ |- _ => inversion E; subst; clear E end.
     destruct (apply_effect_unerase _ _ _ H3) as (e1 & σ1 & Ha & He & Hs).
     exists (LInstr q e1), σ1. repeat split; try congruence.
     + eapply S_instr; eauto. rewrite Hc. apply andb_false_r.
     + cbn. rewrite He. reflexivity.
+  - (* exit poll that does not fire *)
+    destruct t0 as [q| |q| |h r|w q|qe]; try discriminate.
+    exists (LExitPoll false), (with_stk σ s0 Run). repeat split; try congruence.
+    eapply S_exit_ret; eauto. rewrite Hc. apply andb_false_r.
   - (* ret *)
     exists LRet, (with_stk σ s0 Run). repeat split; try congruence.
     eapply S_ret; eauto.
     destruct H2 as [Ht|[(h & r & Ht)|(w & p & Ht)]];
-      destruct t0 as [q| |q| |h' r'|w' q]; inversion Ht; subst; eauto 6.
+      destruct t0 as [q| |q| |h' r'|w' q|qe]; inversion Ht; subst; eauto 6.
   - (* gocall *)
-    destruct t0 as [q| |q| |h r|w q]; try discriminate.
+    destruct t0 as [q| |q| |h r|w q|qe]; try discriminate.
     set (f := cur_flag (attached σ) (stk σ)).
     change (cur_flag (attached (erase σ)) (stk (erase σ))) with (cur_flag false (map erase_tag (stk σ))) in H3.
-    rewrite cur_flag_erase in H3. cbn in H4.
+    rewrite cur_flag_erase in H3.
+    repeat match goal with Hx : _ <= gofuel (erase _) |- _ => cbn in Hx end.
     destruct (reflag_ok f _ H3) as [R1 R2].
     exists (LGoCall (map (reflag f) fs)),
            (mk (map (reflag f) fs ++ stk σ) Run (cancelled σ) (attached σ)
@@ -649,22 +689,23 @@ Proof.
     repeat split; try congruence.
     + eapply S_gocall; eauto.
       * destruct fs; simpl; congruence.
-      * rewrite map_length. exact H4.
+      * rewrite entry_ok_reflag. assumption.
+      * rewrite map_length. assumption.
     + cbn. rewrite R2. reflexivity.
     + unfold erase; cbn. rewrite Es. rewrite map_app, R2, !map_length. reflexivity.
-  - destruct t0 as [q| |q| |h r|w q]; try discriminate.
+  - destruct t0 as [q| |q| |h r|w q|qe]; try discriminate.
     exists LGoRet, (with_stk σ s0 Run). repeat split; try congruence. eapply S_goret; eauto.
-  - destruct t0 as [q| |q| |h r|w q]; try discriminate.
+  - destruct t0 as [q| |q| |h r|w q|qe]; try discriminate.
     exists LGoRaise, (with_stk σ (stk σ) (Raising EOther)). repeat split; try congruence;
       try (eapply S_goraise; solve [eauto]);
       try (unfold erase, with_stk; cbn; rewrite Es; reflexivity).
-  - destruct t0 as [q| |q| |h r|w q]; try discriminate.
+  - destruct t0 as [q| |q| |h r|w q|qe]; try discriminate.
     exists LRecv, (with_stk σ s0 Run). repeat split; try congruence. eapply S_recv; eauto.
   - exists LUnwind, (with_stk σ s0 (Raising e)). repeat split; try congruence.
     eapply S_unwind; eauto. rewrite <- erase_role. assumption.
   - exists LCatch, (with_stk σ s0 Run). repeat split; try congruence.
     eapply S_catch; eauto. rewrite <- erase_role. assumption.
-  - destruct t0 as [q| |q| |h' r|w q]; try discriminate.
+  - destruct t0 as [q| |q| |h' r|w q|qe]; try discriminate.
     match goal with E : erase_tag _ = _ |- _ => inversion E; subst; clear E end.
     exists LHandler, (with_stk σ (handler_frame h (cur_flag (attached σ) s0) :: TGoXpcall h true :: s0) Run).
     repeat split; try congruence;
@@ -863,18 +904,18 @@ Definition run_of_exec (s : list tag) (g : nat) (go : list gochoice) :=
 Lemma cstate_fired s g : polls_all s = true -> cstate (fired s g).
 Proof. intros H. unfold cstate, Inv, fired; simpl. auto. Qed.
 
-(* A Go library function iterating over an error-catching callback (known finding C11-2):
-   depth 4, yet 12 dispatch attempts. *)
-Lemma depth_bound_refuted_with_go_loops_lemma :
-  exists σ tr σ', cstate σ /\ md σ = Run /\ run σ tr σ' /\ attempts tr > 2 * depth (stk σ) + 1.
+(* A Go library function iterating over an error-catching callback (the former finding C11-2, fixed by
+   the poll after a Go function entered from Go code): the callback pcall is entered through TEntry,
+   whose poll raises again, so the library loop is left after its first iteration. *)
+Lemma go_library_loop_stops_lemma :
+  let s := [TLua true; TGoPcall; TEntry true; TGoPlain; TLua true] in
+  forall go, exists tr σ' e,
+    run_of_exec s 20 go = (tr, σ', e) /\ attempts tr = 2 /\ e = EndFinal (Raising ECtx).
 Proof.
-  set (s := [TLua true; TGoPcall; TGoPlain; TLua true]).
-  set (go := repeat (GCall [TLua true; TGoPcall]) 10).
-  destruct (run_of_exec s 20 go) as [[tr σ'] e] eqn:E.
-  destruct (exec_sound _ _ _ _ _ _ _ E) as (tr' & Htr & Hr). simpl in Htr. subst tr'.
-  exists (fired s 20), tr, σ'. split; [apply cstate_fired; reflexivity|]. split; [reflexivity|].
-  split; [exact Hr|].
-  vm_compute in E. inversion E; subst. vm_compute. lia.
+  intros s go. unfold run_of_exec. eexists _, _, _. split; [|split].
+  - vm_compute. reflexivity.
+  - reflexivity.
+  - reflexivity.
 Qed.
 
 (* The host calls pcall directly: the cancellation error is turned into results, no error is left. *)
